@@ -105,6 +105,25 @@ Fixpoint changes_directory (t : tree) : bool :=
       else existsb (fun p => changes_directory (snd p)) ks
   end.
 
+(* _count_substitution_nodes(node): cmdsub/procsub nodes below node, plus the openers in the raw string
+   attributes of every node that is not a word (those strings are scanned as text) *)
+Fixpoint count_subst_nodes (t : tree) : nat :=
+  match t with
+  | T k ss _ ks =>
+      ((if mem_str k SUBST_KINDS then 1 else 0) +
+       (if str_eqb k $"word" then 0 else fold_right Nat.add 0 (map (fun p => count_openers (snd p)) ss)) +
+       fold_right Nat.add 0 (map (fun p => count_subst_nodes (snd p)) ks))%nat
+  end.
+
+(* _substitutions_lost(text, node) *)
+Definition substitutions_lost (text : str) (t : tree) : bool :=
+  has_opener text && Nat.ltb (count_subst_nodes t) (count_openers text).
+
+(* the two guards on a word's text (or on the raw text of (( ))) against parser blind spots *)
+Definition text_guards (with_parts scan : bool) (text : str) (node : tree) : list verdict :=
+  (if with_parts && unclosed_arith text then [Ask] else []) ++
+  (if (with_parts || negb scan) && substitutions_lost text node then [Ask] else []).
+
 (* _strip_fd_prefix(op) *)
 Definition strip_fd_prefix (op : str) : str :=
   match op with
@@ -222,7 +241,7 @@ Section Walker.
     (* --- _analyze_word_parts --- *)
     let wp : bool -> ctx -> list verdict := fun scan c =>
       let parts := lbl "parts" kr in
-      (if nonempty parts && unclosed_arith (sattr "value") then [Ask] else []) ++
+      text_guards (nonempty parts) scan (sattr "value") self ++
       flat_map (fun p => r_exp (snd p) c) parts ++
       (if scan && negb (nonempty parts) then rawscan c (sattr "value") else []) in
     (* --- _analyze_expansion --- *)
@@ -307,7 +326,8 @@ Section Walker.
         combine (flat_map (fun p => r_cond (snd p) c) (lbl "body" kr) ++ redirs kr c)
       else if K "arith-cmd" then
         combine (flat_map (fun p => r_exp (snd p) c) (lbl "expression" kr) ++
-                 (if unclosed_arith (sattr "raw_content") then [Ask] else []) ++ redirs kr c)
+                 text_guards true true (sattr "raw_content")
+                   (match one "expression" kr with Some (e, _) => e | None => T [] [] [] [] end) ++ redirs kr c)
       else if K "comment" || K "empty" then Allow
       else Ask in
     {| r_node := node; r_exp := exp; r_wp := wp; r_cond := cond; r_redir := redir; r_pat := pat |}.
